@@ -16,6 +16,7 @@ from .paths import path_event_set, acyclic_paths, PathOriginsOv
 from .util import Vars, reaches_without
 from . import p_c01
 
+TECHNIQUE = 'static analysis: bit-provenance of the constructor; sign decision tables by finite-domain evaluation of branch conditions; linear-form/interval analysis of one loop iteration (conservation laws of carry, borrow, partial product); event-language equality for less_core/div_core'
 LEVEL = "other"
 EXPLANATION = (
     "Sign/normalisation shell of the big-integer type decided on all CFG paths: (CTOR) bit-provenance analysis shows "
